@@ -309,6 +309,15 @@ class Ctx:
         thms = []
         for m in modules:
             thms += self.theorems_in(m)
+        # committed obligation list (lean/OBLIGATIONS.json, tools/mkobligations.py): every theorem of a Props module that
+        # was there when the list was made must still be there - the obligation count cannot shrink unnoticed
+        required = list(required)
+        try:
+            obl = json.load(open(os.path.join(LEAN_DIR, "OBLIGATIONS.json")))
+        except (OSError, ValueError):
+            obl = {}
+        for m in modules:
+            required += [t for t in obl.get(m, []) if t not in required]
         for r in required:
             if r not in thms:
                 problems.append("required theorem missing from Props: " + r)
